@@ -78,6 +78,7 @@ type Report struct {
 	uninit     map[string]bool
 	harnesses  []map[string]interface{}
 	validated  int
+	warn       map[string]int
 	mismatches []string
 	witnesses  []string
 }
@@ -97,6 +98,14 @@ func (r *Report) absorb(hr *HarnessResult, outDir string, prog *ssa.Program, sp 
 	}
 	for _, u := range hr.Uninit {
 		r.uninit[u] = true
+	}
+	if r.warn == nil {
+		r.warn = map[string]int{}
+	}
+	for k, v := range hr.Warnings {
+		if !strings.HasPrefix(k, "once:") {
+			r.warn[k] += v
+		}
 	}
 	type pending struct {
 		o     *Obligation
@@ -358,6 +367,14 @@ func (r *Report) finish(all []*HarnessResult, g *genFiles) int {
 	}
 	for _, o := range r.cfg.Outside {
 		assumptions = append(assumptions, "outside the claim: "+o)
+	}
+	var wk []string
+	for k := range r.warn {
+		wk = append(wk, k)
+	}
+	sort.Strings(wk)
+	for _, k := range wk {
+		assumptions = append(assumptions, fmt.Sprintf("engine note: %s (x%d)", k, r.warn[k]))
 	}
 	if len(spawned) > 0 {
 		assumptions = append(assumptions, "goroutines spawned but not executed: "+strings.Join(spawned, ", "))
